@@ -113,6 +113,21 @@ CLAIMS["C08"] = {
     "note": "Necessary conditions only. " + _TB,
 }
 
+CLAIMS["C13"] = {
+    "text": "Decides the file-lifetime clauses of C13: the collector's live set is pending outputs plus every file of every "
+            "version in the version list (all levels), computed, listed and classified in one section of the DB mutex; each "
+            "file type's keep predicate equals the specified one (equivalence, so both deleting a needed file and leaking an "
+            "unneeded one are caught); all seven file types are handled; only parsed, not-kept names are deleted and deleted "
+            "tables are evicted; new outputs are registered in pending_outputs in the allocating section before the file "
+            "exists and un-registered only after build / at compaction cleanup; readers and compactions pin and release "
+            "exactly the versions/memtables they use on every exit; versions die at refcount zero; the file-number counter is "
+            "written only by the allocator functions with their guards; the collector is called only from open and the "
+            "background thread. Directory contents at quiescent points of real histories are not decided.",
+    "design_ref": "DESIGN.md 5/C13",
+    "technique": "static analysis: DNF equivalence of guard predicates, switch exhaustiveness, call-order automata, critical-section identity, who-writes tables",
+    "note": "Necessary conditions only. " + _TB,
+}
+
 _PENDING = ("check not built yet in this revision; the property is listed here so that it is not claimed "
             "without machinery (see DESIGN.md for the planned rules)")
 
